@@ -19,7 +19,7 @@ REPLAYS = os.path.join(K.VERIF, 'replays')
 
 # in-crate harness modules are private to the module that includes them, so each include anchor has
 # its own playback module, selected by its own cfg
-PLAYBACK_CFGS = [('::executors::main::', 'verif_playback_main'), ('::checked_transaction::', 'verif_playback_checked'),
+PLAYBACK_CFGS = [('::main::predicates::', 'verif_playback_predicates'), ('::executors::main::', 'verif_playback_main'), ('::checked_transaction::', 'verif_playback_checked'),
                  ('', 'verif_playback')]
 
 
